@@ -18,7 +18,7 @@ def grid(quick):
     for n in ns:
         for alg in ALGS:
             for place in ([0, 1] if quick else [0, 1, 7, 100]):
-                auxs = [9999, 0, 1, 2, n, n + 1] if not quick else [9999, 0, 2, n + 1]
+                auxs = [9999, 9998, 0, 1, 2, n, n + 1] if not quick else [9999, 9998, 0, 2, n + 1]
                 for aux in sorted(set(auxs)):
                     yield n, alg, place, aux
 
